@@ -35,12 +35,13 @@ LEVEL_TEXT = (
     'and nothing the per-sample loop depends on is established only on the '
     'not-resumed path. It does not decide equality with the float model\'s '
     'true per-sample min/max (interpreter behaviour).'
+    ' Numeric simulation of calibrate() on a label model (exact arrays): moving average in dataset order, constants exact, resume equivalence, previous result untouched.'
 )
 LEVEL_NOTE = (
     'Trusted: sa engines; np.min/np.max/np.minimum/np.maximum named as such. '
     'Not decided: interpreter tensor contents, numpy reductions.'
 )
-TECHNIQUE = 'alias/effect analysis + rational-function identity + CFG typestate (static)'
+TECHNIQUE = 'alias/effect analysis + rational-function identity + CFG typestate + numeric simulation of calibration on a label model (abstract interpretation, exact arrays) (static)'
 
 CAL = 'calibrator:Calibrator'
 CU = 'utils.calibration_utils'
